@@ -134,6 +134,11 @@ func validateValue(option *Option, value interface{}) (*valueCache, *ValidationE
 		if option.OptType != OptTypeStringArray {
 			return nil, invalid(option, "expected type %s, got type %T", getTypeName(option.OptType), v)
 		}
+		if v == nil {
+			// Keep an empty list instead of nil: nil would be saved as JSON
+			// null, which is not a valid value when the config is loaded again.
+			v = []string{}
+		}
 		if option.compiledRegex != nil {
 			for pos, entry := range v {
 				if !option.compiledRegex.MatchString(entry) {
